@@ -169,6 +169,8 @@ def register(w):
 
     def post_producer(c: Ctx):
         r, v = c.result, c["value_or_name"]
+        if isinstance(v, VNone):
+            return z3.BoolVal(isinstance(r, VNone))      # no value: no producer
         if isinstance(r, VNone) or not isinstance(v, VRef):
             return z3.BoolVal(True)
         nodes = c["nodes"]
@@ -231,6 +233,11 @@ def install_mutations(w):
             ex.write_field(recv, "inputs", ins)
             bump(ex)
             return (NONE,)
+        if isinstance(recv, VRef) and recv.sort == GRAPH and name == "insert_before" and len(args) == 2:
+            ev(ex, "insert_before", recv, args[0], args[1], ex.snapshot_heap())
+            ex.havoc_field(GRAPH, "nodes")
+            bump(ex)
+            return (NONE,)
         if isinstance(recv, VRef) and recv.sort == GRAPH and name == "remove":
             nodes = args[0]
             items = ex.as_concrete_items(nodes) if isinstance(nodes, (VList, VTuple)) else ([nodes] if isinstance(nodes, VRef) else None)
@@ -244,9 +251,9 @@ def install_mutations(w):
             return (NONE,)
         return None
     w.method_hooks.append(method_hook)
-    w.known_methods = set(getattr(w, "known_methods", set())) | {(NODE, "replace_input_with"), (GRAPH, "remove")}
+    w.known_methods = set(getattr(w, "known_methods", set())) | {(NODE, "replace_input_with"), (GRAPH, "remove"), (GRAPH, "insert_before")}
     w.method_effects = dict(getattr(w, "method_effects", {}))
-    w.method_effects.update({"replace_input_with": [(NODE, "inputs")], "remove": [(GRAPH, "nodes")]})
+    w.method_effects.update({"replace_input_with": [(NODE, "inputs")], "remove": [(GRAPH, "nodes")], "insert_before": [(GRAPH, "nodes")]})
 
     def hv(ex):
         return ex.ghost.get("heap_version", z3.IntVal(0))
